@@ -30,7 +30,7 @@ for s in seeds:
                 first = [l for l in o.stdout.split('\n') if l.startswith('  rule')][:2]
                 hit.append((c, first))
             elif o.returncode == 2:
-                hit.append((c, ['ANALYSIS-BROKEN ' + o.stdout[:200]]))
+                print('      ', c, 'ANALYSIS-BROKEN (not a detection):', o.stdout.strip()[:200])
         res[s] = hit
         print('%-10s %s' % (s, 'DETECTED by ' + ', '.join(c for c, _ in hit) if hit else 'missed'))
         for c, f in hit:
